@@ -29,6 +29,8 @@ from pathlib import Path
 from typing import cast, Any
 from typing_extensions import assert_type
 lst: list[int] = [1]
+rows: list[list[int]] = [[1]]
+dct: dict[str, int] = {"a": 1}
 flag = True
 name = "abc"
 def ident(*a: Any, **k: Any) -> Any: return a
@@ -47,6 +49,7 @@ EXPR_IDIOMS = [
     "int(0)", 'print("")', "not not flag", "flag == True", "lst[:]", 'name.startswith("a") or name.startswith("b")',
     "1 if 1 else 2", 'os.path.join("a", "b")', "isinstance(flag, int) or isinstance(flag, str)", "sorted(lst)[0]",
     "list(lst)", "lambda: []", "bin(3)[2:]", 'str(Path("x"))[:1] + ".md"',
+    "sum(rows, [])", 'dct.copy() | {"b": 2}', 'f"{str(flag)}"', '{**dct, "k": 1}', 'name.lstrip().rstrip()', "[v0 for r0 in rows for v0 in r0]",
 ]
 STMT_IDIOMS = ["del lst[:]", 'with open("f") as fh:\n    data = fh.read()', "_t = int(0)"]
 
@@ -56,7 +59,7 @@ XX = [
     "({E}) if flag else 0", "0 if flag else ({E})", "flag and ({E})", "({E}) or flag", "not ({E})", "({E}) == 1", "({E}).real",
     "lst[{E}:]", "lst[0:{E}]", "ident()[{E}]", "(lambda: {E})", "(lambda a={E}: a)", "[{E} for _q in lst]", "[_q for _q in lst if {E}]",
     "[_q for _q in [{E}]]", "{{{E} for _q in lst}}", "{{1: {E} for _q in lst}}", "list(({E}) for _q in lst)", "(_w := {E})",
-    "cast(int, {E})", "assert_type({E}, int)", 'f"{{ {E} }}"', "ident(ident({E}))", "-({E})", "({E}) + 1",
+    "cast(int, {E})", "assert_type({E}, int)", 'f"{{ {E} }}"', 'f"a{{ {E} }}b{{flag}}"', 'f"{{name}}{{ {E} !r:>4}}"', '"".join([name, str({E})])', "ident(ident({E}))", "-({E})", "({E}) + 1",
 ]
 # expression -> statement contexts ({i} = unique index)
 XS = [
@@ -77,6 +80,14 @@ SS = [
     "try:\n    {S}\nfinally:\n    pass", "try:\n    pass\nexcept Exception:\n    {S}", "try:\n    pass\nexcept Exception:\n    pass\nelse:\n    {S}",
     "try:\n    pass\nfinally:\n    {S}", "match 1:\n    case 1:\n        {S}", "def f{i}():\n    def g():\n        {S}",
     "if flag:\n    if name:\n        {S}",
+]
+# blocks mypy decides statically (marked unreachable at semantic analysis): only the identity probe looks into them,
+# because type-dependent checks legitimately see no types there
+UNREACHABLE_SS = [
+    "import sys\nif sys.version_info >= (3, 8):\n    pass\nelse:\n    {S}",
+    "from typing import TYPE_CHECKING\nif TYPE_CHECKING:\n    pass\nelse:\n    {S}",
+    'import sys\nif sys.platform == "no-such-os":\n    {S}',
+    "import sys\nif sys.version_info < (3, 0):\n    {S}\nelif flag:\n    pass",
 ]
 
 MARK = "§MARK§"
@@ -220,7 +231,7 @@ def run(ctx) -> None:
                     # later lines of a multi-line idiom are indented by the column of its first line
                     want = (code, line + dline, col + dcol)
                     n = got.get(want, 0)
-                    if n == 0 and c["chain"][-1] == 'f"{{ {E} }}"' and dline == 0 and dcol == 0:
+                    if n == 0 and c["chain"][-1].startswith('f"') and dline == 0 and dcol == 0:
                         # mypy gives the root expression of an f-string field the position of its opening brace
                         want = (code, line, col - 2)
                         n = got.get(want, 0)
